@@ -12,6 +12,7 @@ use serde_json::{json, Map};
 pub fn gens() -> Vec<Gen> {
     vec![
         Gen { name: "c13.planted", prop: "C13", tags: &["reserved", "check_for_sd_claim", "inv_arr", "clean", "src/lib.rs", "src/issuer.rs"], cases: cases_planted, check },
+        Gen { name: "c13.deep_planted", prop: "C13", tags: &["depth", "deep", "recursion", "bound"], cases: cases_deep, check },
         Gen { name: "c13.planted_enum", prop: "C13", tags: &["enum"], cases: cases_enum, check },
     ]
 }
@@ -161,5 +162,43 @@ pub fn check(case: &J) -> Verdict {
     match control.issue() {
         Out::Ok(_) => Verdict::Pass,
         o => fail(format!("control without the planted member ({}) -> {}", short(&jstr(&control.claims), 300), o.brief()), "issued"),
+    }
+}
+
+/// Reserved names planted under 1..40 levels of wrappers (objects, arrays, mixed).
+fn cases_deep(_rng: &mut Rng, sink: &mut dyn FnMut(J) -> bool) {
+    fn wrap(inner: J, depth: usize, kind: usize) -> J {
+        let mut v = inner;
+        for d in 0..depth {
+            v = match (kind, d % 2) {
+                (0, _) | (2, 0) | (3, 1) => json!({ "w": v }),
+                _ => json!([v]),
+            };
+        }
+        v
+    }
+    let strategies = [Strategy::AllLevels, Strategy::NoSD, Strategy::TopLevel];
+    let mut n = 0usize;
+    for depth in 0..=40usize {
+        for kind in 0..4 {
+            for name in ["_sd", "..."] {
+                n += 1;
+                let value = if n % 3 == 0 { json!(["digest"]) } else { json!("x") };
+                let planted_obj = json!({"k": 1, name: value});
+                let clean_obj = json!({"k": 1});
+                let (planted, control) = match n % 2 {
+                    // below a top-level member / below a top-level array
+                    0 => (json!({"iss": "i", "exp": FAR_EXP, "d": wrap(planted_obj, depth, kind)}), json!({"iss": "i", "exp": FAR_EXP, "d": wrap(clean_obj, depth, kind)})),
+                    _ => (json!({"iss": "i", "exp": FAR_EXP, "v": 1, "d": [0, wrap(planted_obj, depth, kind)]}), json!({"iss": "i", "exp": FAR_EXP, "v": 1, "d": [0, wrap(clean_obj, depth, kind)]})),
+                };
+                let cfg = Cfg::simple(planted, strategies[n % 3].clone()).variant(n);
+                let mut c = cfg.to_json();
+                c["control"] = control;
+                c["planted_at"] = json!(format!("{} wrapper level(s) below $.d, member {name}", depth));
+                if !sink(c) {
+                    return;
+                }
+            }
+        }
     }
 }
